@@ -11,6 +11,7 @@ import (
 	"fmt"
 	"os"
 	"runtime"
+	"strings"
 	"sync"
 	"time"
 
@@ -85,6 +86,7 @@ type world struct {
 	seq      uint32
 	crashed  any
 	dead     bool
+	hung     bool // proven by goroutine state (see barrier)
 
 	baseGoroutines int
 
@@ -155,7 +157,7 @@ func newWorld(allowLocalhop bool, fibAlgo string, faces []faceSpec) (*world, err
 	w.thread = fwmgmt.MakeMgmtThread()
 	go w.thread.VerifRun(func(p any) { w.exited <- p })
 	// the internal face appears in the face table as soon as Run has registered it
-	deadline := time.Now().Add(5 * time.Second)
+	// (no deadline: a slow machine only means more waiting; the test binary's own timeout is the last resort)
 	for w.internal == nil {
 		for _, f := range face.FaceTable.GetAll() {
 			if f.RemoteURI().Scheme() == "internal" {
@@ -163,9 +165,6 @@ func newWorld(allowLocalhop bool, fibAlgo string, faces []faceSpec) (*world, err
 			}
 		}
 		if w.internal == nil {
-			if time.Now().After(deadline) {
-				return nil, fmt.Errorf("internal face never registered")
-			}
 			time.Sleep(50 * time.Microsecond)
 		}
 	}
@@ -235,7 +234,13 @@ func (w *world) barrier() ([]captured, string) {
 	}
 	w.inject(wire, 1, tok)
 	var got []captured
-	timeout := time.After(10 * time.Second)
+	// No wall-clock limit decides anything here. Every 2 s without an answer the goroutines are inspected: the sentinel counts as
+	// unanswered only if that is PROVEN by state - twice in a row the management loop and the internal face's two goroutines are
+	// all blocked (so every queue between them is empty and the sentinel has been consumed) with an identical stack of the
+	// management goroutine and nothing captured in between. While anything is runnable or makes progress we keep waiting.
+	tick := time.NewTicker(2 * time.Second)
+	defer tick.Stop()
+	prev := ""
 	for {
 		select {
 		case c := <-w.fw.datas:
@@ -255,10 +260,79 @@ func (w *world) barrier() ([]captured, string) {
 					return got, "panic"
 				}
 			}
-		case <-timeout:
-			return got, "hang"
+		case <-tick.C:
+			st := pipelineState()
+			if st.blocked && len(w.fw.datas) == 0 && prev != "" && st.mgmtStack == prev {
+				w.hung = true
+				w.crashed = "management pipeline blocked with the request consumed: " + firstLines(st.mgmtStack, 6)
+				return got, "hang"
+			}
+			if st.blocked && len(w.fw.datas) == 0 {
+				prev = st.mgmtStack
+			} else {
+				prev = ""
+			}
 		}
 	}
+}
+
+// pipelineState inspects a dump of all goroutines: the goroutine running Thread.Run and the internal face's runReceive / runSend
+// goroutines. blocked = all those present are in a blocked state (chan receive, select, lock, ...), none runnable or running.
+type pipeState struct {
+	blocked   bool
+	mgmtStack string
+	present   int
+	ids       []string
+}
+
+var stackBuf = make([]byte, 1<<20)
+
+// goroutines of a history whose management pipeline was proven blocked: they never end and are ignored from then on
+var zombies = map[string]bool{}
+
+func pipelineState() pipeState {
+	buf := stackBuf[:runtime.Stack(stackBuf, true)]
+	st := pipeState{blocked: true}
+	for _, g := range strings.Split(string(buf), "\n\n") {
+		isMgmt := strings.Contains(g, "mgmt.(*Thread).Run(")
+		isFace := strings.Contains(g, "face.(*InternalTransport).runReceive(") || strings.Contains(g, "face.(*NDNLPLinkService).runSend(") ||
+			strings.Contains(g, "face.(*NDNLPLinkService).runReceive(")
+		if !isMgmt && !isFace {
+			continue
+		}
+		head := g
+		if i := strings.Index(g, "\n"); i >= 0 {
+			head = g[:i]
+		}
+		id := head
+		if i := strings.Index(head, " ["); i >= 0 {
+			id = head[:i] // "goroutine 42"
+		}
+		if zombies[id] {
+			continue
+		}
+		st.present++
+		st.ids = append(st.ids, id)
+		if strings.Contains(head, "[running") || strings.Contains(head, "[runnable") || strings.Contains(head, "[syscall") || strings.Contains(head, "[sleep") {
+			st.blocked = false
+		}
+		if isMgmt {
+			// drop the header line (it carries the waiting time) so that two dumps of the same blocked state compare equal
+			st.mgmtStack = strings.TrimPrefix(g, head)
+		}
+	}
+	if st.mgmtStack == "" {
+		st.blocked = false // the management goroutine is not there (it is reported through w.exited)
+	}
+	return st
+}
+
+func firstLines(s string, n int) string {
+	l := strings.Split(strings.TrimSpace(s), "\n")
+	if len(l) > n {
+		l = l[:n]
+	}
+	return strings.ReplaceAll(strings.Join(l, " | "), "\t", "")
 }
 
 // command injects one Interest and returns the Data it produced (those carrying its token).
@@ -324,12 +398,19 @@ func (w *world) csProbe(n int) (before, size, capacity int) {
 
 // close stops the management loop (closing the internal face ends Run) and waits for it.
 func (w *world) close() {
+	if w.hung {
+		// proven blocked: nothing to wait for (this history is reported as a failure anyway); whatever of its pipeline is still
+		// there shortly after closing the face is left behind and ignored by later histories
+		w.internal.Close()
+		time.Sleep(50 * time.Millisecond)
+		for _, id := range pipelineState().ids {
+			zombies[id] = true
+		}
+		return
+	}
 	if !w.dead {
 		w.internal.Close()
-		select {
-		case <-w.exited:
-		case <-time.After(5 * time.Second):
-		}
+		<-w.exited // closing the internal face ends Run; no deadline
 		w.dead = true
 	} else if w.internal != nil {
 		// the loop is gone (panic); still close the face so its goroutines end
@@ -337,9 +418,9 @@ func (w *world) close() {
 	}
 	// The internal link service's goroutines unregister the face (FaceTable.Remove -> Rib.CleanUpFace) on their way
 	// out; wait until they are gone so that nothing touches the tables while the next world resets them.
-	deadline := time.Now().Add(5 * time.Second)
-	for runtime.NumGoroutine() > w.baseGoroutines && time.Now().Before(deadline) {
-		time.Sleep(20 * time.Microsecond)
+	// Decided by state, not by a count or a deadline: wait until no goroutine of the management pipeline exists any more.
+	for pipelineState().present > 0 {
+		time.Sleep(100 * time.Microsecond)
 	}
 }
 
